@@ -79,6 +79,7 @@ pub fn main(prop: &'static str, args: &Args) {
         // elements) and supports(..) receivers
         let attr = attr_corpus(args.tier);
         let mut extra = generate(&attr);
+        extra.extend(generate(&enum_corpus(args.tier)));
         let n_attr = extra.len();
         extra.extend(crate::c16::generate_body(args.tier));
         extra.extend(crate::c18::generate_shape(args.tier));
